@@ -459,6 +459,13 @@ def models():
     ms.append(M('strenum', [lv, hl], [K('Lv'), K('Hl'), L(K('Lv'))],
                 keys=['lv', 'm', 'hi'], scalars=[['str', 'hi'], ['str', 'lo'], S_42],
                 strs=['hi'], qn=4, tn=4, qo=4, to=5))
+    # ---- a string class derived from yatiml.String --------------------------------
+    ys = C('Ys', kind='ystring', rejects=['abc'])
+    hy = C('Hy', [P('s', K('Ys')), P('d', D(INT, K('Ys')), ['dict', []])])
+    ms.append(M('ystr', [ys, hy], [K('Ys'), K('Hy'), L(K('Ys')),
+                                   D(K('Ys'), K('Ys'))],
+                keys=['s', 'd', 'red'], scalars=[S_RED, S_ABC, S_42],
+                stags=['!Ys'], strs=['red'], qn=4, tn=5, qo=4, to=5))
     # ---- long and unusual strings as attributes of an object -------------------
     ls = C('Ls', [P('d', STR), P('e', STR, ['str', 'abc'])])
     ms.append(M('longstr', [ls], [K('Ls'), L(STR), D(STR)], keys=['d', 'e'],
@@ -500,6 +507,160 @@ def models():
                 scalars=[S_42, S_ABC], strs=['abc', '42'], family='dump',
                 qn=1, tn=1))
     return ms
+
+
+# ---------------------------------------------------------------------------
+# machine-generated class models ("gen" families).  The generator is seeded
+# with FIXED numbers (not VERIF_SEED): the families are as fixed as the
+# hand-written ones and every one of them has been validated on the
+# unchanged tree; they widen "for all class models" beyond what a person
+# thinks of.
+# ---------------------------------------------------------------------------
+GEN_SEEDS = list(range(1, 13))
+
+
+def gen_model(seed):
+    import random
+    rnd = random.Random(1000 + seed)
+    pre = 'G%d' % seed
+    classes = []
+    names = []
+    # a scalar-like helper class (enum or string-like) half of the time
+    helper = None
+    if rnd.random() < 0.5:
+        if rnd.random() < 0.5:
+            helper = C(pre + 'e', kind='enum', members=['red', 'blue'])
+        else:
+            helper = C(pre + 's', kind=rnd.choice(['strlike', 'userstring']),
+                       rejects=rnd.choice([[], ['abc']]))
+        classes.append(helper)
+    pnames = ['a', 'b', 'c', 'd_e', 'f']
+
+    def leaf_type(avail):
+        opts = [INT, STR, BOOL, Opt(INT), L(INT), D(INT), U(INT, STR), ANY,
+                U(BOOL, INT), L(STR), Opt(STR)]
+        if helper is not None:
+            opts += [K(helper['name']), Opt(K(helper['name'])),
+                     L(K(helper['name']))]
+        for a in avail:
+            opts += [K(a), L(K(a)), Opt(K(a))]
+        return rnd.choice(opts)
+
+    def default_for(t):
+        k = t[0]
+        if k == 'int':
+            return ['int', rnd.choice(['0', '42'])]
+        if k == 'str':
+            return ['str', rnd.choice(['d', 'abc'])]
+        if k == 'bool':
+            return ['bool', 'true']
+        if k == 'list':
+            return ['list', []]
+        if k == 'dict':
+            return ['dict', []]
+        if k == 'union':
+            if NULL in t[1]:
+                return ['null']
+            return default_for(t[1][0])
+        return ['null']         # Any / class: None (class types get Optional)
+
+    def make_params(n, avail, base=None):
+        ps = [dict(p) for p in (base or [])]
+        used = {p['name'] for p in ps}
+        free = [x for x in pnames if x not in used]
+        rnd.shuffle(free)
+        new = []
+        for name in free[:n]:
+            t = leaf_type(avail)
+            if rnd.random() < 0.45:
+                d = default_for(t)
+                if d == ['null'] and t[0] not in ('any',) and \
+                        not (t[0] == 'union' and NULL in t[1]):
+                    t = Opt(t)
+                new.append(P(name, t, d))
+            else:
+                new.append(P(name, t))
+        # Python: parameters with defaults go last; at most two required
+        # ones, so that small documents can be valid
+        allp = ps + new
+        req = [p for p in allp if p['required']]
+        opt = [p for p in allp if not p['required']]
+        while len(req) > 2:
+            p = req.pop()
+            t = p['type']
+            d = default_for(t)
+            if d == ['null'] and t[0] != 'any' and \
+                    not (t[0] == 'union' and NULL in t[1]):
+                t = Opt(t)
+            opt.insert(0, P(p['name'], t, d))
+        return req + opt
+
+    nplain = rnd.choice([2, 3, 3, 4])
+    shape = rnd.choice(['chain', 'fork', 'flat', 'absroot', 'absmid'])
+    plain = []
+    for i in range(nplain):
+        nm = pre + 'ABCD'[i]
+        bases, basep, abstract = [], None, False
+        if i > 0 and shape in ('chain', 'absroot', 'absmid'):
+            bases = [plain[i - 1]['name']]
+        elif i > 0 and shape == 'fork' and i >= 1:
+            bases = [plain[0]['name']]
+        if bases:
+            basep = [p for p in next(c for c in plain
+                                     if c['name'] == bases[0])['params']]
+        if (shape == 'absroot' and i == 0) or \
+                (shape == 'absmid' and i == 1 and nplain > 2):
+            abstract = True
+        avail = [c['name'] for c in plain if c['name'] not in bases
+                 and not c['bases'] and not c['abstract']
+                 and shape == 'flat']
+        ps = make_params(rnd.choice([1, 1, 2]) if bases else
+                         rnd.choice([1, 2, 2, 3]), avail, basep)
+        kw = {}
+        r = rnd.random()
+        if r < 0.12:
+            ren = [p['name'] for p in ps if '_' not in p['name']]
+            if ren:
+                kw['sav'] = ['rename', ren[0] + ren[0], ren[0]]
+        elif r < 0.2 and any('_' in p['name'] for p in ps):
+            kw['sav'] = ['dashes_to_unders']
+        elif r < 0.27:
+            rq = [p['name'] for p in ps if p['required']]
+            if rq:
+                kw['recog'] = ['require_attr', rq[0]]
+        extra = rnd.random() < 0.2
+        plain.append(C(nm, ps, bases=bases, abstract=abstract, extra=extra,
+                       **kw))
+    classes += plain
+    roots = [c for c in plain if not c['bases']]
+    dts = []
+    for c in roots:
+        dts.append(K(c['name']))
+    dts.append(L(K(roots[0]['name'])))
+    if len(roots) > 1:
+        dts.append(U(K(roots[0]['name']), K(roots[1]['name'])))
+    else:
+        dts.append(U(K(roots[0]['name']), INT))
+    keys = sorted({p['name'] for c in plain for p in c['params']} |
+                  {p['dname'] for c in plain for p in c['params']
+                   if c.get('sav') == ['dashes_to_unders']})
+    for c in plain:
+        if c['sav'][0] == 'rename':
+            keys.append(c['sav'][1])
+    keys = sorted(set(keys)) + ['zz']
+    scal = [S_42, S_ABC]
+    if helper is not None and helper['kind'] == 'enum':
+        scal.append(S_RED)
+    if any(p['type'] in (BOOL, U(BOOL, INT)) for c in plain
+           for p in c['params']):
+        scal.append(S_TRUE)
+    if any(NULL in p['type'][1] for c in plain for p in c['params']
+           if p['type'][0] == 'union'):
+        scal.append(S_NULL)
+    tags = ['map'] + ['!' + c['name'] for c in plain[-2:]]
+    return M('gen%d' % seed, classes, dts, keys=keys, scalars=scal,
+             mtags=tuple(tags), qn=5, tn=6, rootk='m', nodup=True,
+             rtypes=[], family='gen', note='generated, seed %d' % seed)
 
 
 # core tags of the abstract documents ('!'-prefixed tags are local tags)
@@ -587,7 +748,7 @@ POOL = {
 
 
 def build(dimplicit=None):
-    ms = models()
+    ms = models() + [gen_model(i) for i in GEN_SEEDS]
     vals = set()
     for k, lst in POOL.items():
         vals |= set(lst)
